@@ -77,6 +77,8 @@ pub(crate) struct Reader {
     read_mode: LinkReadMode,
     parser: Parser,
     buffer: ReadBuffer,
+    /// sender of the octets currently held in the buffer (datagram transports)
+    addr: PhysAddr,
 }
 
 struct ReadBuffer {
@@ -137,6 +139,7 @@ impl Reader {
             read_mode: link_modes.read_mode,
             parser: Parser::new(link_modes.error_mode),
             buffer: ReadBuffer::new(buffer_size),
+            addr: PhysAddr::None,
         }
     }
 
@@ -162,15 +165,13 @@ impl Reader {
         payload: &mut FramePayload,
         level: DecodeLevel,
     ) -> Result<(Header, PhysAddr), LinkError> {
-        let mut addr = PhysAddr::None;
-
         loop {
             // how much data is currently in the buffer?
             let length = self.buffer.num_bytes_unread();
 
             if length == 0 {
                 self.buffer.reset();
-                addr = self.read_more_data(io, level).await?;
+                self.addr = self.read_more_data(io, level).await?;
             } else {
                 match self.parse_buffer(payload, level)? {
                     None => {
@@ -181,9 +182,10 @@ impl Reader {
                             self.buffer.reset();
                             self.parser.reset();
                         }
-                        addr = self.read_more_data(io, level).await?;
+                        self.addr = self.read_more_data(io, level).await?;
                     }
-                    Some(header) => return Ok((header, addr)),
+                    // every frame parsed from the buffer comes from the sender of the last read
+                    Some(header) => return Ok((header, self.addr)),
                 }
             }
         }
